@@ -14,7 +14,7 @@ const oracleText = "oracle per case (the sequence is played twice against one he
 	"and it ends AS an error response or a closed connection: if the client's HTTP parser sees a 2xx response that is framed as complete (Content-Length fully delivered, or chunked with its terminating chunk; a gzip content coding is decoded first, a damaged gzip stream counts as visibly incomplete) its body must be the complete body of a response a backend was scripted to give to that request (GOOD's answer, FAULTY's when its script runs to the end, or the fallback 200 given to a request the proxy's transport re-sent) - for a reset, short or stalled backend body it cannot be (not judged: HEAD, 101, client-abort steps, bodies delimited by the end of the connection); " +
 	"(ii) afterwards, polling from fresh client addresses, within 8 s (nominal 4 s, measured time is a class label) a request is answered 200 by a backend and the next 5 requests succeed too (a failure in between restarts the count: the bookkeeping of a faulted request whose client has already gone may still open the breaker or eject a backend inside the window), and /v1/backends stops reporting an ejected backend within the same 8 s; " +
 	"(iii) the process is alive, its log has no panic / fatal error / goroutine trace, /v1/backends shows every active_connections at 0 within 3 s; " +
-	"(iv) the open-fd count is back at <= baseline+20 and the second run does not end more than 2 fds above the first"
+	"(iv) the open-fd count is back at <= baseline+20 and the second run does not end more than 2 fds above the first." + afterText
 
 // workers is the number of labs (helios process + 2 raw backends) a shard runs in parallel.
 func workers() int { return 12 } // per sub-check (the request-kind table: 3x); the shard-wide bound is labSlots (run.go)
@@ -29,6 +29,7 @@ type replayDoc struct {
 	FreeRun   int    `json:"free_running_clients,omitempty"`
 	FlakyOne  int    `json:"faulty_answers_5xx_one_in,omitempty"`
 	Swap      bool   `json:"recovery_through_recovered_backend,omitempty"`
+	Probes    int    `json:"recovery_probe_rotation,omitempty"`
 	Original  *Case  `json:"original_case_before_minimisation,omitempty"`
 	Violation string `json:"violation"`
 	Config    string `json:"helios_yaml"`
@@ -162,6 +163,10 @@ func minimise(t *testing.T, c Case, v string) (Case, Result, bool) {
 // judge records every executed case and reports the first violation (in case order).
 func judge(t *testing.T, name string, sub *lab.SubCheck, cases []Case, res []Result, replaying bool) {
 	failed := -1
+	if !replaying {
+		// every case that gets through its recovery phase has had >= 6 probes answered 200 with a verified body
+		sub.Floor("recovery-probe-body-verified", 0.90)
+	}
 	for i, c := range cases {
 		r := res[i]
 		if r.Harness != "" {
@@ -306,11 +311,11 @@ func judge(t *testing.T, name string, sub *lab.SubCheck, cases []Case, res []Res
 		}
 	}
 	c, r := cases[failed], res[failed]
-	doc := replayDoc{Kind: c.Kind, Cfg: c.Cfg, Opening: c.Opening, Steps: c.Steps, Clients: c.Clients, Seconds: c.Seconds, FreeRun: c.FreeRunning, FlakyOne: c.FlakyOneIn, Swap: c.Swap, Violation: r.Violation, Config: r.YAML, HeliosLog: tail(r.Log, 20000)}
+	doc := replayDoc{Kind: c.Kind, Cfg: c.Cfg, Opening: c.Opening, Steps: c.Steps, Clients: c.Clients, Seconds: c.Seconds, FreeRun: c.FreeRunning, FlakyOne: c.FlakyOneIn, Swap: c.Swap, Probes: c.ProbeRotation, Violation: r.Violation, Config: r.YAML, HeliosLog: tail(r.Log, 20000)}
 	if !replaying && len(c.Steps) > 0 && c.Kind == "" {
 		if mc, mr, changed := minimise(t, c, r.Violation); changed {
 			orig := c
-			doc = replayDoc{Cfg: mc.Cfg, Steps: mc.Steps, Swap: mc.Swap, Original: &orig, Violation: mr.Violation, Config: mr.YAML, HeliosLog: tail(mr.Log, 20000)}
+			doc = replayDoc{Cfg: mc.Cfg, Steps: mc.Steps, Swap: mc.Swap, Probes: mc.ProbeRotation, Original: &orig, Violation: mr.Violation, Config: mr.YAML, HeliosLog: tail(mr.Log, 20000)}
 			c, r = mc, mr
 		}
 	}
@@ -385,7 +390,7 @@ func enumerated() []Case {
 						s.Concurrent = 2 + int((h>>8)%7)
 					}
 					c.Steps = []Step{s}
-					out = append(out, c)
+					out = append(out, dress(c, 1000601, i))
 					i++
 				}
 			}
@@ -495,7 +500,7 @@ func kindCases() []Case {
 						}
 					}
 					c.Steps = []Step{s}
-					out = append(out, c)
+					out = append(out, dress(c, 1000603, i))
 					i++
 				}
 			}
@@ -594,7 +599,7 @@ func quietCases() []Case {
 					if again {
 						c.Steps = append(c.Steps, burst)
 					}
-					out = append(out, c)
+					out = append(out, dress(c, 1000607, i))
 					i++
 				}
 			}
@@ -650,7 +655,7 @@ func midBodyCases() []Case {
 							s.Framing = fr
 						}
 						c.Steps = []Step{s}
-						out = append(out, c)
+						out = append(out, dress(c, 1000609, i))
 						i++
 					}
 				}
@@ -682,9 +687,9 @@ func trialCases() []Case {
 		for _, f := range Faults {
 			for _, unset := range []bool{false, true} {
 				h := mix(lab.Seed()*1000033 + uint64(i))
-				out = append(out, Case{Kind: "breaker-trial", Opening: opening, Steps: []Step{{Fault: f, Kind: Kinds[(uint64(i)/2+lab.Seed())%uint64(len(Kinds))]}},
+				out = append(out, dress(Case{Kind: "breaker-trial", Opening: opening, Steps: []Step{{Fault: f, Kind: Kinds[(uint64(i)/2+lab.Seed())%uint64(len(Kinds))]}},
 					Cfg: Cfg{Strategy: Strategies[(uint64(i)+lab.Seed())%5], FaultyFirst: h&1 == 1, Limiter: h&2 != 0, Plugins: h&4 != 0, Breaker: 2, BreakerMaxRequestsUnset: unset,
-						Handler: 1 + int((h>>12)%3), BackendRead: 1 + int((h>>16)%3)}})
+						Handler: 1 + int((h>>12)%3), BackendRead: 1 + int((h>>16)%3)}}, 1000613, i))
 				i++
 			}
 		}
@@ -781,7 +786,7 @@ func recoveredCases() []Case {
 			c.Cfg.FaultyFirst = true // an idle least_connections pool always picks the backend listed first
 		}
 		c.Steps = []Step{s}
-		out = append(out, c)
+		out = append(out, dress(c, 1000619, i))
 		i++
 	}
 	for _, cell := range HealthCells {
@@ -852,7 +857,7 @@ func goodTrafficCases() []Case {
 						c.Steps = append(c.Steps, fault, Step{Fault: GoodBurst, Kind: kind, Concurrent: 8 + int(hr%25)})
 					}
 				}
-				out = append(out, c)
+				out = append(out, dress(c, 1000621, i))
 				i++
 			}
 		}
@@ -922,6 +927,8 @@ func assumptions() {
 	lab.Assume("roles swapped for recovery: 'the backend that misbehaved has recovered' = from the end of the last fault step on the FAULTY raw backend answers 200 to every request and to every GET /healthz; 'the other backend goes away' = the GOOD raw backend resets every new connection on accept and every request or probe arriving on a pooled connection; which backend served a request is read from the response body; the healthy flag of /v1/backends is the proxy's own statement that a backend is ejected")
 	lab.Assume("health-endpoint faults: active probes are plain GET /healthz requests of the proxy without the harness's case header, so they are answered by the raw backend's fallback script; a step played 'also on the health endpoint' swaps that fallback for the fault (refuse: the listener resets on accept) and lasts 2.3 s of real time, the active-check interval being 2 s; whether a probe failed is read from the helios log (class probe-failure-of-FAULTY-logged)")
 	lab.Assume("synchronised bursts (well-behaved burst after a fault, mixed burst, volleys): every client opens its connection first and waits at a gate inside the harness process; that the requests are then processed by the proxy at the same instant is likely, not guaranteed (real parallelism on the machine's cores, not enumerated schedules)")
+	lab.Assume("afterwards ... succeeds normally: the recovery probes are judged by status and, for a 200 that the client's HTTP parser sees framed as complete, by byte equality (after compress/gzip decoding of a Content-Encoding: gzip the proxy applied) with the bodies the harness's own backends were scripted to send for that probe (every body starts with '<who>-backend ok'); whether a response should have been compressed at all is C15's matter and not judged here; " +
+		"an aborted download is a client RST (SO_LINGER 0) on loopback; how much of the response the proxy had written when the reset arrived depends on the kernel's socket buffers (2 of the 7 download variants shrink the client's receive buffer) and is not controlled")
 	lab.Assume("request kinds: the raw client sends syntactically valid HTTP/1.1 requests only (fixed Sec-WebSocket-Key, 2000-byte bodies); the well-behaved backend answers upgrade requests with 101 or 200, and Expect: 100-continue with 100 Continue before it reads the body (a backend that hangs, resets or sends garbage sends no interim response); after a 101 the client closes the tunnel, nothing is played inside it")
 }
 
